@@ -102,6 +102,7 @@ def prog_event(tid, o, i, fl, placement):
         eff_o = o
         skipexec = False
         starfree = False
+        nomodel = False
         if base in ('function', 'emulate', 'emulate_sigattr', 'auto', 'auto_global', 'auto_closure', 'auto_attr', 'auto_attr2', 'auto_deco_noop'):
             fn = g['w']
             codes = {fn.__wrapped__.__code__} if base in ('emulate', 'emulate_sigattr') else {fn.__code__}
@@ -127,6 +128,11 @@ def prog_event(tid, o, i, fl, placement):
             declared = outcome_full(lambda: _s.mask(_sp.forwards(w0, g['inner'], fl['n'], *fl['names'], use_varargs=fl['uva'], use_varkwargs=fl['uvk'],
                                                                  hide_args=fl['ha'], hide_kwargs=fl['hk'], partial=fl['partial']), 1 if base == 'auto_param' else 2), fns)
             agree = 'ps'
+        elif base == 'auto_class_call':
+            fn, plain_target = g['K'], g['K']
+            codes = {g['K'].__call__.__code__, g['K'].__init__.__code__}
+            eff_o = []
+            nomodel = True
         elif base == 'auto_hint':
             fn, plain_target = g['w'], g['w']
             codes = {g['w'].func.__code__}
@@ -185,7 +191,7 @@ def prog_event(tid, o, i, fl, placement):
         progs.drop_cache(fname)
     return {'tid': tid, 'op': 'fwdprog', 'o': eff_o, 'i': i, 'fl': fl, 'bound': False, 'reported': reported, 'others': others, 'plain': plain,
             'allow_fallback': unbound or auto, 'auto': auto, 'declared': declared, 'agree': agree,
-            'bad_outer': bo, 'bad_inner': bi, 'other_exc': other, 'placement': placement, 'maxpos': maxpos, 'kwpool': names, 'skipexec': skipexec, 'starfree_only': starfree,
+            'bad_outer': bo, 'bad_inner': bi, 'other_exc': other, 'placement': placement, 'maxpos': maxpos, 'kwpool': names, 'skipexec': skipexec, 'starfree_only': starfree, 'nomodel': nomodel,
             'case': {'o': o, 'i': i, 'fl': fl, 'placement': placement, 'src': src}}
 
 
